@@ -156,7 +156,7 @@ Lemma GN_apply_loop n0 rem m : forall s, GN n0 s -> GN n0 (apply_loop rem s m).
 Proof.
   induction rem as [|r IH]; intros s H; simpl.
   - destruct (get_m s m) as [x|]; auto. eapply GN_p2; [apply p2_finish_m|exact H].
-  - destruct (get_m s m) as [x|]; auto. destruct (m_bad x).
+  - destruct (get_m s m) as [x|]; auto. destruct (nth (m_idx x) (m_bad x) false).
     + apply IH. exact H.
     + pose proof (GN_try_start n0 s m x H) as H1.
       destruct (try_start s m x) as [s' cont]. cbn [fst] in H1. destruct cont; auto.
